@@ -230,9 +230,25 @@ fn poll1(fd: i32, events: i16) -> i16 {
 /// write `data` in <= 4096-byte pieces, each only when poll says writable;
 /// returns (written, errno or 0, would_block)
 fn guarded_write(fd: i32, data: &[u8]) -> (usize, i32, bool) {
+    guarded_write_mode(fd, data, false)
+}
+
+/// `all`: the target is drained by somebody who is not an actor of the simulation (the
+/// terminal's master side): wait until everything is written, so that the outcome does not
+/// depend on how fast it is drained.
+fn guarded_write_mode(fd: i32, data: &[u8], all: bool) -> (usize, i32, bool) {
     let mut done = 0;
     while done < data.len() {
-        let rev = poll1(fd, libc::POLLOUT);
+        let rev = if all {
+            let mut p = libc::pollfd { fd, events: libc::POLLOUT, revents: 0 };
+            unsafe { libc::poll(&mut p, 1, 200) };
+            if p.revents == 0 {
+                continue;
+            }
+            p.revents
+        } else {
+            poll1(fd, libc::POLLOUT)
+        };
         if rev & (libc::POLLOUT | libc::POLLERR | libc::POLLHUP | libc::POLLNVAL) == 0 {
             return (done, 0, true);
         }
@@ -377,7 +393,7 @@ fn main() {
                 let off = int(4) as usize;
                 let t = stream_table(seed);
                 let data: Vec<u8> = (0..n).map(|i| t[(off + i) % TLEN]).collect();
-                let (done, e, wb) = guarded_write(fd, &data);
+                let (done, e, wb) = guarded_write_mode(fd, &data, w.last() == Some(&"all"));
                 if e != 0 {
                     ctl.send(&format!("err {} {}", e, done));
                 } else {
@@ -387,7 +403,7 @@ fn main() {
             "writehex" => {
                 let fd = int(1) as i32;
                 let data = unhex(w.get(2).copied().unwrap_or(""));
-                let (done, e, wb) = guarded_write(fd, &data);
+                let (done, e, wb) = guarded_write_mode(fd, &data, w.last() == Some(&"all"));
                 if e != 0 {
                     ctl.send(&format!("err {} {}", e, done));
                 } else {
@@ -397,7 +413,7 @@ fn main() {
             "writebuf" => {
                 // forward (part of) what was read with keep=1
                 let fd = int(1) as i32;
-                let (done, e, wb) = guarded_write(fd, &buf);
+                let (done, e, wb) = guarded_write_mode(fd, &buf, w.last() == Some(&"all"));
                 buf.drain(..done);
                 if e != 0 {
                     ctl.send(&format!("err {} {}", e, done));
